@@ -77,28 +77,42 @@ def run_fold_order(P, rep, rule="R-FOLD"):
     else:
         ol = op_local(ev[0]["args"][1])
         locs, calls = backward_slice(fn, ol[0]) if ol else (set(), [])
-        from mirutil import named_local
-        ent = named_local(fn, "entry")
-        if not ent or not (set(ent) & locs):
-            probs.append("the filter input is not the running value `entry`")
-        # result is stored back into entry
-        back = False
+        # the running value: a local that feeds the filter's input AND is re-defined from the filter's result (found by
+        # data flow, whatever it is called)
         from mirutil import defs_of
-        for e in ent or []:
+        back = False
+        feeds = False
+        for e in sorted(locs):
             ds = defs_of(fn, e)
-            if len(ds) >= 2:
-                # one definition from the entry expression, one from the filter result inside the loop
-                for kind, bi, si, d in ds:
-                    src = None
-                    if kind == "a" and d["k"] == "use":
-                        o2 = op_local(d["o"])
-                        src = o2[0] if o2 else None
-                    elif kind == "a" and d["k"] == "agg":
-                        src = e
-                    if src is not None:
-                        l2, c2 = backward_slice(fn, src) if src != e else (set(), [])
-                        if src == e or ev[0]["d"][0] in l2:
-                            back = True
+            if len(ds) < 2:
+                continue
+            feeds = True
+            for kind, bi, si, d in ds:
+                src = None
+                if kind == "a" and d["k"] == "use":
+                    o2 = op_local(d["o"])
+                    src = o2[0] if o2 else None
+                elif kind == "a" and d["k"] == "agg":
+                    for o in d.get("ops", []):
+                        o2 = op_local(o)
+                        if o2:
+                            l2, _ = backward_slice(fn, o2[0])
+                            if ev[0]["d"][0] in l2:
+                                back = True
+                elif kind == "c":
+                    l2 = set()
+                    for a in d.get("args", []):
+                        o2 = op_local(a)
+                        if o2:
+                            l2 |= backward_slice(fn, o2[0])[0]
+                    if ev[0]["d"][0] in l2:
+                        back = True
+                if src is not None:
+                    l2, c2 = backward_slice(fn, src)
+                    if ev[0]["d"][0] in l2:
+                        back = True
+        if not feeds:
+            probs.append("the filter input is not a running value (no local that is both the input and re-assigned in the loop)")
         if not back:
             probs.append("the filter result does not become the next running value")
     if probs:
